@@ -292,7 +292,7 @@ def block(draw, env: Env, ret_t: str, depth: int, in_loop: bool, indent: int):
     for _ in range(n):
         kinds = ["assign", "assign", "use", "use", "unpack", "use-index"]
         if depth > 0:
-            kinds += ["if", "if", "ifelse", "for", "while", "try", "with", "match", "assert", "walrus", "stored-test", "stored-test"]
+            kinds += ["if", "if", "ifelse", "for", "while", "try", "with", "match", "assert", "walrus", "stored-test", "stored-test", "loop-carried"]
         kinds.append("return")
         if in_loop:
             kinds += ["break", "continue"]
@@ -407,6 +407,29 @@ def block(draw, env: Env, ret_t: str, depth: int, in_loop: bool, indent: int):
             if draw(st.booleans()):
                 lines.append(f"{pad}    case _:")
                 lines.append(f"{pad}        use({x})")
+        elif k == "loop-carried":
+            # a value carried from one iteration to the next: read at the top of the body, reassigned further down; the
+            # body ends normally, in `continue` (alone or on every branch of an if / else) or in a conditional jump
+            t = draw(st.sampled_from(["int | str", "Optional[int]", "object", "int | str | None", "Optional[str]"]))
+            name = env.fresh()
+            lines.append(f"{pad}{name} = {draw(expr(env, t, 0))}")
+            head = draw(st.sampled_from(["for _k in it():", "while cond():", "for _k in (1, 2, 3):"]))
+            lines.append(f"{pad}{head}")
+            lines.append(f"{pad}    use({name})")
+            lines.append(f"{pad}    {name} = {draw(expr(env, t, 1))}")
+            tail = draw(st.sampled_from(["none", "continue", "both-continue", "cond-continue", "cond-break", "use"]))
+            if tail == "continue":
+                lines.append(f"{pad}    continue")
+            elif tail == "both-continue":
+                lines += [f"{pad}    if cond():", f"{pad}        continue", f"{pad}    else:", f"{pad}        continue"]
+            elif tail == "cond-continue":
+                lines += [f"{pad}    if cond():", f"{pad}        continue", f"{pad}    {name} = {draw(expr(env, t, 0))}"]
+            elif tail == "cond-break":
+                lines += [f"{pad}    if cond():", f"{pad}        break"]
+            elif tail == "use":
+                lines.append(f"{pad}    use({name})")
+            env.vars[name] = t
+            lines.append(f"{pad}use({name})")
         elif k == "stored-test":
             # a narrowing test kept in a variable, the tested name possibly rebound (conditionally) before the
             # variable is branched on
